@@ -2,7 +2,8 @@
    Statements about Model/Gate.v (tied to assert_equivalent_dimension and the validate_* decorators by the
    correspondence check of harness/props/c04.py).  Only `exact` here. *)
 From Coq Require Import List QArith ZArith Bool NArith.
-From VP Require Import Base.Util Base.Dim Base.Val Model.CollectQ Model.Gate Proofs.DimProofs Proofs.GateProofs.
+From VP Require Import Base.Util Base.Dim Base.Val Model.CollectQ Model.Gate Model.QVec Proofs.DimProofs Proofs.GateProofs
+  Proofs.QVecProofs.
 Import ListNotations.
 
 (* the argument passes exactly when the declaration is a wildcard (zero-valued unit expression / AnyDimension),
@@ -87,3 +88,23 @@ Theorem C04_bind_style_irrelevant : forall params guards out pos kw pos' kw' ret
   guarded_call params guards out pos kw ret = guarded_call params guards out pos' kw' ret.
 Proof. exact bind_style_irrelevant. Qed.
 Print Assumptions C04_bind_style_irrelevant.
+
+(* a quantity vector is constructed only if every component passes the gate against the vector's dimension (the
+   angle dimension in the angle slots of the cylindrical and spherical systems) *)
+Theorem C04_qvec_every_component_checked : forall sys comps o d,
+  qvec_ctor sys comps o = Ok d ->
+  exists qs, resolve_all o comps = Ok qs /\
+    d = match o with Some x => x | None => first_dimension qs end /\
+    forall i v qd, nth_error qs i = Some (v, qd) ->
+      gate1 (GExpr (QQty v qd)) (GDim (if is_angle_component sys i then base ANGLE else d)) = None.
+Proof. exact qvec_every_component_checked. Qed.
+Print Assumptions C04_qvec_every_component_checked.
+
+Theorem C04_qvec_failure_refuses : forall sys comps o qs i v qd k,
+  resolve_all o comps = Ok qs ->
+  nth_error qs i = Some (v, qd) ->
+  gate1 (GExpr (QQty v qd))
+    (GDim (if is_angle_component sys i then base ANGLE else match o with Some x => x | None => first_dimension qs end)) = Some k ->
+  exists k', qvec_ctor sys comps o = Err k'.
+Proof. exact qvec_first_failure_refuses. Qed.
+Print Assumptions C04_qvec_failure_refuses.
